@@ -9,13 +9,16 @@ def run(tier, runner):
     progs = matrix.programs(runner, pts)
     sprogs = matrix.programs(runner, extra)
     vp = [p for p in progs if 'flavour' in p.meta]
-    r_w = encoding.enc_w(progs)
-    r_r = encoding.enc_r(progs)
+    real = matrix.real_programs(runner, tier)
+    r_w = encoding.enc_w(progs + real)
+    r_r = encoding.enc_r(progs + real)
     r_span = shape2.inline_span(vp)
     r_it = shape2.iter1(progs + sprogs)
     r_ov = shape2.overlap(vp)
-    r_cd = lifetime.check_dom(progs)
-    r_tail = lifetime.tail(vp)
+    r_cd = lifetime.check_dom(progs + real)
+    r_tail = lifetime.tail(vp + real)
+    r_alias = lifetime.alias(vp)
+    r_alias.require(14, 'operations taking a reference to an element value')
     r_w.require(18, 'stores to the size words of SmallVectorBase')
     r_r.require(3, 'value reads of _size')
     r_span.require(6, 'inline vector layouts')
@@ -24,14 +27,14 @@ def run(tier, runner):
     r_cd.require(20, 'constructs into container storage')
     r_tail.require(12, 'size commits')
     return {
-        'results': [r_w, r_r, r_span, r_it, r_ov, r_cd, r_tail],
+        'results': [r_w, r_r, r_span, r_it, r_ov, r_cd, r_tail, r_alias],
         'explanation': 'C01 as stated (equality of sequences with std::vector over histories) is a statement about run-time values and is not decided.  '
                        'Decided: structural clauses, each necessary for it.  ENC-W / ENC-R: the inline size/capacity words of SmallVector are written only '
                        'by the encoders, jointly, or on an object known to be large, and every value read of `_size` honours the full marker.  '
                        'INLINE-SPAN: the N inline slots lie inside the object and nothing else lives there (record layout of every inline instantiation).  '
                        'ITER1: range members instantiated with a single-pass iterator traverse it once.  OVERLAP: erase of an empty range performs no '
                        'element operation (no self move assignment).  CHECK-DOM: no operation, including the move/swap bookkeeping of the bases, '
-                       'constructs into storage whose capacity was not checked.  TAIL: every size commit follows the lifetime operation it accounts for.',
+                       'constructs into storage whose capacity was not checked.  TAIL: every size commit follows the lifetime operation it accounts for.  ALIAS (shared with C10): a value argument that designates an element of the same vector is read before any element moves, or through a correctly re-based reference / pointer.',
         'assumptions': ['element sequences, sizes and returned positions over histories are not decided (value statements)'],
         'trusted': ['clang 14 record layout', 'the helper-role table', 'the amcsa plugin export'],
     }
